@@ -217,6 +217,10 @@ pub struct ArgSpec {
     pub overrides: Vec<String>,
     #[serde(default)]
     pub value_hint: Option<Hint>,
+    /// caller-supplied completion callback (dynamic completion): 0 none, 1 empty, 2 duplicates,
+    /// 3 hidden only, 4 very long list, 5 ArgValueCompleter echoing the current word
+    #[serde(default)]
+    pub completer: u8,
 }
 
 impl ArgSpec {
@@ -268,6 +272,7 @@ impl ArgSpec {
             required_unless: vec![],
             overrides: vec![],
             value_hint: None,
+            completer: 0,
         }
     }
     pub fn is_positional(&self) -> bool {
@@ -371,6 +376,9 @@ pub struct CmdSpec {
     /// 0 = none; 1,2 = one of the static deferred builders below
     #[serde(default)]
     pub defer: u8,
+    /// SubcommandCandidates callback kind for external subcommands (0 none)
+    #[serde(default)]
+    pub ext_candidates: u8,
 }
 
 impl CmdSpec {
@@ -645,7 +653,30 @@ pub fn build_arg(a: &ArgSpec) -> Arg {
     if let Some(h) = a.value_hint {
         x = x.value_hint(h.to_clap());
     }
+    if a.completer != 0 && a.action.takes_values() {
+        let k = a.completer;
+        if k == 5 {
+            x = x.add(clap_complete::engine::ArgValueCompleter::new(|cur: &std::ffi::OsStr| {
+                let mut v = cur.to_os_string();
+                v.push("-completed");
+                vec![clap_complete::engine::CompletionCandidate::new(v)]
+            }));
+        } else {
+            x = x.add(clap_complete::engine::ArgValueCandidates::new(move || candidate_list(k)));
+        }
+    }
     x
+}
+
+pub fn candidate_list(kind: u8) -> Vec<clap_complete::engine::CompletionCandidate> {
+    use clap_complete::engine::CompletionCandidate as C;
+    match kind {
+        1 => vec![],
+        2 => vec![C::new("dup"), C::new("dup"), C::new("dup2")],
+        3 => vec![C::new("hid1").hide(true), C::new("hid2").hide(true)],
+        4 => (0..300).map(|i| C::new(format!("cand{i:04}")).help(Some("candidate help".into()))).collect(),
+        _ => vec![C::new("cb-one"), C::new("cb-two").help(Some("two".into()))],
+    }
 }
 
 pub fn build_pv(p: &PvSpec) -> PossibleValue {
@@ -758,6 +789,10 @@ pub fn build_cmd(s: &CmdSpec) -> Command {
             CmdSetting::NextLineHelp => c.next_line_help(true),
             CmdSetting::Hide => c.hide(true),
         };
+    }
+    if s.ext_candidates != 0 {
+        let k = s.ext_candidates;
+        c = c.add(clap_complete::engine::SubcommandCandidates::new(move || candidate_list(k)));
     }
     match s.defer {
         1 => c = c.defer(deferred_one),
